@@ -28,7 +28,13 @@ type BlockHeaderSubscriber interface {
 
 type liquidBlockHeaderSubscriber struct {
 	txObservers []TXObserver
-	mu          sync.Mutex
+	// mu guards txObservers. It is not held while an observer's callback
+	// runs: the callback sends an event to a swap's state machine, whose
+	// actions register observers here.
+	mu sync.Mutex
+	// updateMu serializes Update, so that an observer is still called by
+	// one block notification at a time.
+	updateMu sync.Mutex
 }
 
 func NewLiquidBlockHeaderSubscriber() *liquidBlockHeaderSubscriber {
@@ -44,6 +50,8 @@ func (h *liquidBlockHeaderSubscriber) Register(tx TXObserver) {
 }
 
 func (h *liquidBlockHeaderSubscriber) Deregister(o TXObserver) {
+	h.mu.Lock()
+	defer h.mu.Unlock()
 	newObservers := make([]TXObserver, 0, len(h.txObservers))
 	for _, observer := range h.txObservers {
 		if observer.GetSwapID() != o.GetSwapID() {
@@ -54,9 +62,13 @@ func (h *liquidBlockHeaderSubscriber) Deregister(o TXObserver) {
 }
 
 func (h *liquidBlockHeaderSubscriber) Update(ctx context.Context, blockHeight BlockHeight) error {
+	h.updateMu.Lock()
+	defer h.updateMu.Unlock()
 	h.mu.Lock()
-	defer h.mu.Unlock()
-	for _, observer := range h.txObservers {
+	observers := make([]TXObserver, len(h.txObservers))
+	copy(observers, h.txObservers)
+	h.mu.Unlock()
+	for _, observer := range observers {
 		callbacked, err := observer.Callback(ctx, blockHeight)
 		if callbacked {
 			if err == nil || errors.Is(err, swap.ErrSwapDoesNotExist) {
